@@ -547,7 +547,20 @@ class PDFStandardSecurityHandlerV4(PDFStandardSecurityHandler):
             modes.CBC(initialization_vector),
             backend=default_backend(),
         )  # type: ignore
-        return cipher.decryptor().update(ciphertext)  # type: ignore
+        plaintext = cipher.decryptor().update(ciphertext)  # type: ignore
+        return self.remove_padding(plaintext)
+
+    @staticmethod
+    def remove_padding(data: bytes) -> bytes:
+        """Strip the PKCS#5 padding that ends every AES-encrypted string or stream.
+
+        Data that does not end in a valid padding is returned unchanged.
+        """
+        if data:
+            n = data[-1]
+            if 1 <= n <= 16 and n <= len(data) and data.endswith(bytes((n,)) * n):
+                return data[:-n]
+        return data
 
 
 class PDFStandardSecurityHandlerV5(PDFStandardSecurityHandlerV4):
@@ -671,7 +684,8 @@ class PDFStandardSecurityHandlerV5(PDFStandardSecurityHandlerV4):
             modes.CBC(initialization_vector),
             backend=default_backend(),
         )  # type: ignore
-        return cipher.decryptor().update(ciphertext)  # type: ignore
+        plaintext = cipher.decryptor().update(ciphertext)  # type: ignore
+        return self.remove_padding(plaintext)
 
 
 class PDFDocument:
